@@ -12,6 +12,7 @@
 from __future__ import annotations
 
 import itertools
+import math
 import operator
 import time
 import types
@@ -37,6 +38,7 @@ class Ctx:
         self.timeout_ms = timeout_ms
         self.queries = 0
         self.solver_s = 0.0
+        self.acos_breakpoints = []
         self.snap_tol = None    # see _snap()
         self.snap_obligations = []
 
@@ -226,7 +228,11 @@ class Sym:
     def arccos(self):
         def ax(r, x):
             CTX.assumed += [x >= -1, x <= 1]
-            return [r >= 0, r <= PI]
+            out = [r >= 0, r <= PI]
+            for c in CTX.acos_breakpoints:       # strict monotonicity of acos against the constants the code compares with
+                cc = rat(math.cos(c))
+                out += [(r > rat(c)) == (x < cc), (r < rat(c)) == (x > cc)]
+            return out
         return _fn("acos", self.e, ax)
 
     def exp(self):
@@ -467,15 +473,22 @@ def _reduce_with(f, a, axis):
     return _ret(_np.frompyfunc(f, 2, 1).reduce(a, axis=axis))
 
 
+def _b2n(a):
+    """booleans count as 0/1 in sums and means (numpy semantics)"""
+    if any(isinstance(x, SymB) for x in a.flat) or a.dtype == bool:
+        return _np.frompyfunc(lambda v: Sym(z3.If(v.e, z3.RealVal(1), z3.RealVal(0))) if isinstance(v, SymB) else (float(v) if isinstance(v, (bool, _np.bool_)) else v), 1, 1)(a)
+    return a
+
+
 def _sum(a, axis=None, **k):
-    a = _asobj(a)
+    a = _b2n(_asobj(a))
     if a.size == 0:
         return 0
     return _reduce_with(operator.add, a, axis)
 
 
 def _mean(a, axis=None, **k):
-    a = _asobj(a)
+    a = _b2n(_asobj(a))
     n = a.size if axis is None else a.shape[axis]
     return _sum(a, axis) / n
 
@@ -529,8 +542,12 @@ def _where(c, a=None, b=None):
     return _ret(_np.frompyfunc(lambda ci, ai, bi: _ite(ci, ai, bi) if isinstance(ci, SymB) else (ai if ci else bi), 3, 1)(c, a, b))
 
 
-def _clip(a, lo, hi, **k):
-    return _ret(_np.frompyfunc(lambda v, l, h: _sym_min(_sym_max(v, l), h), 3, 1)(_asobj(a), _asobj(lo), _asobj(hi)))
+def _clip(a, lo, hi, out=None, **k):
+    r = _ret(_np.frompyfunc(lambda v, l, h: _sym_min(_sym_max(v, l), h), 3, 1)(_asobj(a), _asobj(lo), _asobj(hi)))
+    if out is not None:
+        _asobj(out)[...] = _asobj(r)
+        return out
+    return r
 
 
 _FUNCS = {_np.prod: lambda a, axis=None, **k: _reduce_with(operator.mul, a, axis), _np.sum: _sum, _np.mean: _mean, _np.all: _all, _np.any: _any, _np.dot: _dot, _np.einsum: _einsum, _np.where: _where,
@@ -612,7 +629,7 @@ class NP:
     def dot(self, a, b): return _dot(a, b) if (has_sym(a) or has_sym(b)) else _np.dot(a, b)
     def einsum(self, spec, *ops, **k): return _einsum(spec, *ops) if any(has_sym(o) for o in ops) else _np.einsum(spec, *ops, **k)
     def where(self, c, a=None, b=None): return _where(c, a, b) if (has_sym(c) or has_sym(a) or has_sym(b)) else (_np.where(c) if a is None else _np.where(c, a, b))
-    def clip(self, a, lo, hi, **k): return _clip(a, lo, hi) if has_sym(a) else _np.clip(a, lo, hi, **k)
+    def clip(self, a, lo, hi, **k): return _clip(a, lo, hi, **k) if has_sym(a) else _np.clip(a, lo, hi, **k)
     def abs(self, a): return abs(a) if is_sym(a) else (_ret(_np.frompyfunc(abs, 1, 1)(_asobj(a))) if has_sym(a) else _np.abs(a))
     absolute = abs
 
